@@ -332,7 +332,14 @@ def c16_text(t, dump, tier):
             M.stdout = []
             code = 0
             try:
-                M.call(run_fn, [None, None])
+                install_cobra_stubs(M)
+                M.run_init(MOD + '/cmd')
+                set_global(M, MOD + '/cmd.dsl', go_str(t.text) if mode == 'dsl' else '')
+                set_global(M, MOD + '/cmd.file', go_str('/work/in.dsl') if mode.startswith('file') else '')
+                fc = M.load(M.gptr(MOD + '/cmd.formatCmd', gtid(M, MOD + '/cmd.formatCmd')))
+                M.effects = []
+                M.stdout = []
+                M.call(run_fn, [fc, None])
             except GoExit as ge:
                 code = ge.code
             return code, list(M.effects), [x for x in M.stdout], dict(M.env['fs'])
@@ -540,6 +547,25 @@ def install_cobra_stubs(M):
             M_.call_value(run, [cmd, None])
         return None
     M.intr['(*%s.Command).Execute' % COBRA] = execute
+    M.intr['(*%s.Command).OutOrStdout' % COBRA] = lambda M_, a: Iface(-5, 'stdout')
+    M.intr['(*%s.Command).OutOrStderr' % COBRA] = lambda M_, a: Iface(-5, 'stderr')
+    M.intr['(*%s.Command).ErrOrStderr' % COBRA] = lambda M_, a: Iface(-5, 'stderr')
+
+    def fprint(kind):
+        def f(M_, a):
+            from . import gointr
+            w = a[0]
+            if kind == 'f':
+                sx = gointr.sprintf(M_, a[1], gointr.varargs(a[2]))
+            else:
+                sx = gointr.sprint(M_, gointr.varargs(a[1]), kind == 'ln')
+            if isinstance(w, Iface) and w.v == 'stdout' or (isinstance(w, Ptr) and getattr(w.cell, 'tag', '') == 'global:os.Stdout'):
+                M_.stdout.append(sx)
+            return (len(sx), None)
+        return f
+    M.intr['fmt.Fprintf'] = fprint('f')
+    M.intr['fmt.Fprintln'] = fprint('ln')
+    M.intr['fmt.Fprint'] = fprint('')
 
 
 def gtid(M, name):
